@@ -17,7 +17,7 @@ Unwinding assertions stay on (CBMC 6 default), so a too-small bound is a failed 
 Kani's reachability instrumentation is switched off at codegen (`--no-assertion-reach-checks`); vacuity is guarded by the
 harnesses' own `kani::cover!` witnesses, which Kani encodes as `assert(!cond)`: FAILURE = the witness is satisfied.
 """
-import os, subprocess, json, time, re, glob, resource, signal, shutil
+import os, sys, subprocess, json, time, re, glob, resource, signal, shutil
 from concurrent.futures import ThreadPoolExecutor
 from . import ws
 
@@ -147,6 +147,7 @@ def _run(cmd, timeout, rss_gb, out_path=None):
             p.wait()
             return -9, time.time() - t0, True
     except Exception as e:
+        sys.stderr.write("engine.kani: could not run %s: %r\n" % (cmd[0], e))
         return -1, time.time() - t0, False
 
 
@@ -233,7 +234,10 @@ def recursion_limits(meta, k_override=None):
     return out
 
 
-def verify_one(meta, unwind, solver, timeout, rss_gb, keep_log_dir, rec_limit=None):
+FS_ARRAY_DEFAULT = 1024     # see ws.REPR_PATCH: heap objects larger than CBMC's default 64 bytes lose constant propagation
+
+
+def verify_one(meta, unwind, solver, timeout, rss_gb, keep_log_dir, rec_limit=None, extra=None, fs_array=None):
     """run the post-codegen pipeline for one harness -> result dict"""
     sym = meta["goto_file"]
     mangled = meta["mangled_name"]
@@ -261,8 +265,13 @@ def verify_one(meta, unwind, solver, timeout, rss_gb, keep_log_dir, rec_limit=No
     else:
         cmd += ["--sat-solver", "cadical"]
     rl = recursion_limits(meta, rec_limit)
-    if rl:
-        cmd += ["--unwindset", ",".join(rl)]
+    # one argument may not exceed 128 KB (MAX_ARG_STRLEN): the option is repeatable, so chunk the list
+    for k in range(0, len(rl), 40):
+        cmd += ["--unwindset", ",".join(rl[k:k + 40])]
+    fsa = fs_array if fs_array is not None else int(os.environ.get("VERIF_FS_ARRAY", FS_ARRAY_DEFAULT))
+    if fsa:
+        cmd += ["--max-field-sensitivity-array-size", str(fsa)]
+    cmd += list(extra or []) + os.environ.get("VERIF_CBMC_EXTRA", "").split()
     cmd += ["--slice-formula", out, "--verbosity", "8"]
     logp = os.path.join(keep_log_dir, re.sub(r"[^A-Za-z0-9_]", "_", meta["pretty_name"])[-150:] + ".cbmc.txt")
     rc, w, to = _run(cmd, timeout, rss_gb, out_path=logp)
@@ -326,7 +335,8 @@ def run_group(pkg, harnesses, feature_args, jobs, timeout, rss_gb, log_dir, tag)
         if not md:
             return h.name, {"status": "inconclusive", "reason": "harness not found in kani metadata", "failed": [], "checks": 0,
                             "proved": 0, "covers_sat": 0, "covers_unsat": 0, "solver_s": 0.0, "symex_s": 0.0}
-        return h.name, verify_one(md, h.unwind, h.solver, timeout, rss_gb, log_dir, getattr(h, "rec_limit", None))
+        return h.name, verify_one(md, h.unwind, h.solver, timeout, rss_gb, log_dir, getattr(h, "rec_limit", None), getattr(h, "cbmc_extra", None),
+                                  getattr(h, "fs_array", None))
     done = 0
     from concurrent.futures import as_completed
     with ThreadPoolExecutor(max_workers=jobs) as ex:
